@@ -79,7 +79,11 @@ class Defs:
         for n in walk_no_nested(fn):
             if isinstance(n, ast.Assign):
                 for t in n.targets:
-                    self._bind(t, "assign", n, n.value)
+                    if isinstance(t, ast.Subscript) and isinstance(t.value, ast.Name):
+                        # X[...] = value : the value flows into X
+                        self.defs.setdefault(self.key(t.value), []).append(("store", n, n.value, ()))
+                    else:
+                        self._bind(t, "assign", n, n.value)
             elif isinstance(n, ast.AnnAssign) and n.value is not None:
                 self._bind(n.target, "assign", n, n.value)
             elif isinstance(n, ast.AugAssign):
@@ -115,7 +119,7 @@ class Defs:
     def single_assign(self, name):
         """The unique plain assignment `name = expr` (no other definition except in-place ones), or None."""
         ds = [d for d in self.of(name) if d[0] == "assign" and not d[3]]
-        others = [d for d in self.of(name) if d[0] not in ("aug", "append")]
+        others = [d for d in self.of(name) if d[0] not in ("aug", "append", "store")]
         return ds[0][2] if len(ds) == 1 and len(others) == 1 else None
 
     def names_in(self, expr):
